@@ -31,10 +31,10 @@ func init() {
 	register(&PropertyDef{
 		ID:          "C17",
 		Title:       "Rendezvous points are deterministic, agreed between peers, and rotate on time",
-		Explanation: "Decides, from the type-checked SSA of /repo and without executing it: (D1) by a backward, order-aware dependency query, that the digest returned by GenerateRendezvousPointForPeriod depends on each of topic, seed and date and on no clock, randomness or mutable package state, that on the way from Time.Unix* to the MAC input the period start is never converted to an integer type narrower than 64 bits (int/uint count as narrow: 32-bit platforms) and that a constant-bounds PutUint64 region is entirely inside the bytes written to the hash (a hand-written shift/mask encoder is not modelled), and that RoundTimePeriod/NextTimePeriod are pure functions of (date, interval); (D2) by abstract evaluation over the ordering of deadline and clock (representatives: deadline 2 s / 1 h before and after now), that Point.IsExpired is true exactly for a passed deadline and Point.TTL has the sign of deadline-now; (D3) by abstract evaluation over a period lattice (instant -> period index relative to a base instant, aligned to the period start or not), with IsExpired/TTL replaced by the contract D2 checks: NextTimePeriod is RoundTimePeriod plus one interval for either sign of the interval; NewRendezvousPointForPeriod digests (topic, seed, start of the period containing its time argument), sets the deadline to the end of that period and stores topic, seed and owner unchanged; NextPoint of an expired point builds the point of the period containing the clock with the same topic and seed; every exported lookup returns on a hit the cached point while it is live and, once it is expired, a newly built point of the current period that has been passed to the function storing points in both caches, and refuses a miss with an error; structurally: points are stored in both caches on the same path, under their own topic and their own encoded rotation value; the raw-rotation lookup encodes exactly like Point.RotationTopic; cache entries are deleted only in timer callbacks (never synchronously on the rotation path, never with a constant delay <= 0), only from the rotation cache, only under the key of the replaced point; every cache access holds the cache mutex in the required mode, including in callers and the timer callback; (D4) Marshal resolves the point for the message address, fails when the lookup fails, and sends that point's raw rotation value; Unmarshal (in its own body or in a module function it calls, depth <= 2, with the payload parameter and the error traced through the calls) looks up the RawRotation of the message decoded from the payload, fails on every path when the lookup fails, and opens the sealed box under the resolved point's topic; the store-opening path registers rotation and shared key under the same topic; (D5) every site that rebuilds a point for time.Now() behind a test of a point's deadline (swiper announce/watch loops, NextPoint) is reached on the deadline-passed side of the test; (D6) at every module call site of a lookup by rotation value (the lookups that read the rotation cache), no branch whose condition is computed from both the value looked up and the returned point's rotation value (directly or through a module helper) has a side that only fails: the lookup answers a previous-period value with the current point, so such a rejection would cancel the grace period for that consumer. (D7) in every loop outside the rendezvous package that renews a point (constructor, NextPoint or a lookup called on a CFG cycle), each topic handed to the discovery service in that loop (string argument of an exported tinder.Service method, directly, through a module helper parameter, or through a struct field that another function passes on) derives from a renewal call of that loop, following locals and captured variables through all their stores; a topic fixed outside the loop is reported (flow-insensitive: a topic computed in the loop before the renewal of the same iteration is not distinguished). Not decided: the arithmetic inside RoundTimePeriod (floor to a multiple of the interval; covered by the project's unit test), HMAC/SHA-256 strength, agreement across real clocks and clock skew, the length of the grace period (only that it is not zero by construction), the cadence of the swiper loops, behaviour for intervals below one second.",
+		Explanation: "Decides, from the type-checked SSA of /repo and without executing it: (D1) by a backward, order-aware dependency query, that the digest returned by GenerateRendezvousPointForPeriod depends on each of topic, seed and date and on no clock, randomness or mutable package state, that on the way from Time.Unix* to the MAC input the period start is never converted to an integer type narrower than 64 bits (int/uint count as narrow: 32-bit platforms) and that a constant-bounds PutUint64 region is entirely inside the bytes written to the hash (a hand-written shift/mask encoder is not modelled), and that RoundTimePeriod/NextTimePeriod are pure functions of (date, interval); (D2) by abstract evaluation over the ordering of deadline and clock (representatives: deadline 2 s / 1 h before and after now), that Point.IsExpired is true exactly for a passed deadline and Point.TTL has the sign of deadline-now; (D3) by abstract evaluation over a period lattice (instant -> period index relative to a base instant, aligned to the period start or not), with IsExpired/TTL replaced by the contract D2 checks: NextTimePeriod is RoundTimePeriod plus one interval for either sign of the interval; NewRendezvousPointForPeriod digests (topic, seed, start of the period containing its time argument), sets the deadline to the end of that period and stores topic, seed and owner unchanged; NextPoint of an expired point builds the point of the period containing the clock with the same topic and seed; every exported lookup returns on a hit the cached point while it is live and, once it is expired, a newly built point of the current period that has been passed to the function storing points in both caches, and refuses a miss with an error; structurally: points are stored in both caches on the same path, under their own topic and their own encoded rotation value; the raw-rotation lookup encodes exactly like Point.RotationTopic; cache entries are deleted only in timer callbacks (never synchronously on the rotation path, never with a constant delay <= 0), only from the rotation cache, only under the key of the replaced point; every cache access holds the cache mutex in the required mode, including in callers and the timer callback; (D4) Marshal resolves the point for the message address, fails when the lookup fails, and sends that point's raw rotation value; Unmarshal (in its own body or in a module function it calls, depth <= 2, with the payload parameter and the error traced through the calls) looks up the RawRotation of the message decoded from the payload, fails on every path when the lookup fails, and opens the sealed box under the resolved point's topic; the store-opening path registers rotation and shared key under the same topic, and from every registration of the shared key (which overwrites) no successful return is reachable without RegisterRotation except on the equal side of a comparison of the cached point's Seed() with the seed being registered; (D5) every site that rebuilds a point for time.Now() behind a test of a point's deadline (swiper announce/watch loops, NextPoint) is reached on the deadline-passed side of the test; (D6) at every module call site of a lookup by rotation value (the lookups that read the rotation cache), no branch whose condition is computed from both the value looked up and the returned point's rotation value (directly or through a module helper) has a side that only fails: the lookup answers a previous-period value with the current point, so such a rejection would cancel the grace period for that consumer. (D7) in every loop outside the rendezvous package that renews a point (constructor, NextPoint or a lookup called on a CFG cycle), each topic handed to the discovery service in that loop (string argument of an exported tinder.Service method, directly, through a module helper parameter, or through a struct field that another function passes on) derives from a renewal call of that loop, following locals and captured variables through all their stores; a topic fixed outside the loop is reported; a wait received from inside such a loop (Done() of a context.WithDeadline/WithTimeout, time.Sleep, time.After) whose deadline or duration is the point's Deadline()/TTL() plus a duration of positive sign (constants, negation, products, initial value of a module package variable) is reported, a wait not waited on in the loop or of undecided sign is not claimed (flow-insensitive: a topic computed in the loop before the renewal of the same iteration is not distinguished). Not decided: the arithmetic inside RoundTimePeriod (floor to a multiple of the interval; covered by the project's unit test), HMAC/SHA-256 strength, agreement across real clocks and clock skew, the length of the grace period (only that it is not zero by construction), the cadence of the swiper loops, behaviour for intervals below one second.",
 		Trusted:     []string{"golang.org/x/tools go/packages+go/ssa (v0.29.0)", "semantics of package time (Now/Until/Since/Sub/After/Before/Add/Unix*), crypto/hmac, encoding/binary, encoding/base64 as documented", "the checker's abstract evaluator (absint.go)"},
 		Assumptions: []string{"dependencies behave as documented; only module code is analysed", "rotation intervals are whole seconds >= 1 s (the quantifier of the property)", "D3 assumes the contract of IsExpired/TTL that D2 checks"},
-		Floors:      map[string]int{"D1": 4, "D2": 2, "D3": 16, "D4": 7, "D5": 3, "D6": 2, "D7": 3},
+		Floors:      map[string]int{"D1": 4, "D2": 2, "D3": 16, "D4": 8, "D5": 3, "D6": 2, "D7": 4},
 		Run:         runC17,
 	})
 }
@@ -2392,6 +2392,139 @@ func c17IsPointOf(v ssa.Value, call *ssa.Call) bool {
 	return false
 }
 
+// c17SeedEqualEdges: the CFG edges of fn taken when a comparison found the seed of a cached
+// point (Point.Seed()) equal to seed.
+func c17SeedEqualEdges(a *c17Anchors, fn *ssa.Function, seed ssa.Value) map[edge]bool {
+	out := map[edge]bool{}
+	var polarity func(cond ssa.Value, depth int) (equalOnTrue, ok bool)
+	polarity = func(cond ssa.Value, depth int) (bool, bool) {
+		if depth > 4 {
+			return false, false
+		}
+		involves := func(vs ...ssa.Value) bool {
+			seen := map[ssa.Value]bool{}
+			for _, v := range vs {
+				c17CondSlice(v, nil, seen)
+			}
+			hasSeedAcc, hasSeed := false, false
+			for v := range seen {
+				if call, ok := v.(*ssa.Call); ok && a.seedAcc != nil && staticCallee(call.Common()) == a.seedAcc {
+					hasSeedAcc = true
+				}
+				if stripConv(v) == stripConv(seed) {
+					hasSeed = true
+				}
+			}
+			return hasSeedAcc && hasSeed
+		}
+		switch x := cond.(type) {
+		case *ssa.UnOp:
+			if x.Op == token.NOT {
+				e, ok := polarity(x.X, depth+1)
+				return !e, ok
+			}
+		case *ssa.Call:
+			k := calleeKey(x.Common())
+			if (k == "bytes.Equal" || k == "crypto/subtle.ConstantTimeCompare" || k == "slices.Equal") && involves(x.Common().Args...) {
+				return true, k != "crypto/subtle.ConstantTimeCompare"
+			}
+		case *ssa.BinOp:
+			if (x.Op == token.EQL || x.Op == token.NEQ) && involves(x.X, x.Y) {
+				if call, ok := x.X.(*ssa.Call); ok && calleeKey(call.Common()) == "crypto/subtle.ConstantTimeCompare" {
+					if n, isC := constInt(x.Y); isC && n == 1 {
+						return x.Op == token.EQL, true
+					}
+					return false, false
+				}
+				if c17IsString(x.X.Type()) {
+					return x.Op == token.EQL, true
+				}
+			}
+		}
+		return false, false
+	}
+	for _, b := range fn.Blocks {
+		ifi, ok := b.Instrs[len(b.Instrs)-1].(*ssa.If)
+		if !ok {
+			continue
+		}
+		if eq, ok := polarity(ifi.Cond, 0); ok {
+			if eq {
+				out[edge{b, b.Succs[0]}] = true
+			} else {
+				out[edge{b, b.Succs[1]}] = true
+			}
+		}
+	}
+	return out
+}
+
+// c17ExecutesUnless: every execution of u is followed (or preceded) by v, except along cut edges.
+func c17ExecutesUnless(u, v ssa.Instruction, cut map[edge]bool) bool {
+	if instrDominates(v, u) {
+		return true
+	}
+	if u.Block() == v.Block() {
+		return instrDominates(u, v)
+	}
+	seen := map[*ssa.BasicBlock]bool{}
+	type item struct{ from, to *ssa.BasicBlock }
+	var stack []item
+	for _, s := range u.Block().Succs {
+		stack = append(stack, item{u.Block(), s})
+	}
+	if len(stack) == 0 {
+		return false
+	}
+	for len(stack) > 0 {
+		it := stack[len(stack)-1]
+		stack = stack[:len(stack)-1]
+		if cut[edge{it.from, it.to}] || seen[it.to] || it.to == v.Block() {
+			continue
+		}
+		seen[it.to] = true
+		if len(it.to.Succs) == 0 {
+			if _, isRet := it.to.Instrs[len(it.to.Instrs)-1].(*ssa.Return); isRet && isSuccessReturn(it.to.Instrs[len(it.to.Instrs)-1].(*ssa.Return)) {
+				return false
+			}
+			continue
+		}
+		for _, s := range it.to.Succs {
+			stack = append(stack, item{it.to, s})
+		}
+	}
+	return true
+}
+
+func c17CheckRegistrationAlways(c *Ctx, a *c17Anchors, fn *ssa.Function, rot, key []*ssa.Call, regRot *ssa.Function) {
+	construct := fnName(fn) + "+RegisterRotation.always"
+	seedIdx := -1
+	for i, p := range regRot.Params {
+		if i > 0 && c17IsByteSlice(p.Type()) {
+			seedIdx = i
+		}
+	}
+	bad := ""
+	for _, kc := range key {
+		covered := false
+		for _, rc := range rot {
+			cut := map[edge]bool{}
+			if seedIdx >= 0 && seedIdx < len(rc.Common().Args) {
+				cut = c17SeedEqualEdges(a, fn, rc.Common().Args[seedIdx])
+			}
+			if c17ExecutesUnless(kc, rc, cut) {
+				covered = true
+			}
+		}
+		if !covered {
+			bad = c.pos(posOf(kc))
+		}
+	}
+	c.check(bad == "", "D4", construct, posOf(rot[0]),
+		"whenever the shared key of a topic is registered the rotation seed is registered too (or the cached seed was compared equal)",
+		"the shared key registered at "+bad+" overwrites the previous one on every open, but a successful return is reachable from there without RegisterRotation (and without a comparison that found the cached point's seed equal to the current one): a topic first opened with another link key keeps resolving with the old seed, the node computes points no other member computes")
+}
+
 // c17Chains: the call sites leading from root to host (host first), depth <= 2; nil when host
 // is root.
 func c17Chains(w *World, root, host *ssa.Function) [][]callSite {
@@ -2716,6 +2849,11 @@ func c17RunD4(c *Ctx, a *c17Anchors) {
 			}
 		}
 		c.check(okAll, "D4", construct, posOf(rot[0]), "rotation and shared key are registered under the same topic", msg)
+		// the seed is (re)registered whenever the shared key is: both come from the link key of the
+		// group being opened, the key registration overwrites, so a skipped rotation registration
+		// leaves the topic resolving with the seed of an earlier open. Skipping is harmless only on
+		// the side of a comparison that found the cached point's seed equal to the current one.
+		c17CheckRegistrationAlways(c, a, fn, rot, key, regRot)
 	}
 	if n == 0 {
 		c.undecided("D4", "registration", token.NoPos, "no module function registers a rotation")
@@ -3269,6 +3407,219 @@ func c17DerivesFrom(v ssa.Value, targets map[ssa.Value]bool, seen map[ssa.Value]
 	return false
 }
 
+// ---- D7 (b): the wait that paces a renewal loop ends at the point's deadline, not later.
+// Known-bad shape: inside a renewal loop, a context deadline / timeout / sleep that is waited
+// on in the loop is computed from the point's Deadline()/TTL() plus a positive duration (for
+// example the grace period): the loop then stays on the ended period's point for that long.
+
+// c17DurSign: the sign of a duration value when it is decided by constants (and by the
+// initial value of a module package variable); ok=false when unknown.
+func c17DurSign(w *World, v ssa.Value, depth int) (int, bool) {
+	if depth > 6 {
+		return 0, false
+	}
+	sg := func(n int64) int {
+		switch {
+		case n > 0:
+			return 1
+		case n < 0:
+			return -1
+		}
+		return 0
+	}
+	switch x := v.(type) {
+	case *ssa.Const:
+		if n, ok := constInt(x); ok {
+			return sg(n), true
+		}
+	case *ssa.Convert:
+		return c17DurSign(w, x.X, depth+1)
+	case *ssa.ChangeType:
+		return c17DurSign(w, x.X, depth+1)
+	case *ssa.UnOp:
+		if x.Op == token.SUB {
+			s, ok := c17DurSign(w, x.X, depth+1)
+			return -s, ok
+		}
+		if g, isG := x.X.(*ssa.Global); isG && x.Op == token.MUL && g.Pkg != nil {
+			// the value the package initializer gives it
+			if init := g.Pkg.Func("init"); init != nil {
+				var val ssa.Value
+				n := 0
+				for _, b := range init.Blocks {
+					for _, in := range b.Instrs {
+						if st, ok := in.(*ssa.Store); ok && st.Addr == ssa.Value(g) {
+							val = st.Val
+							n++
+						}
+					}
+				}
+				if n == 1 {
+					return c17DurSign(w, val, depth+1)
+				}
+			}
+		}
+	case *ssa.BinOp:
+		a, ok1 := c17DurSign(w, x.X, depth+1)
+		b, ok2 := c17DurSign(w, x.Y, depth+1)
+		if ok1 && ok2 {
+			switch x.Op {
+			case token.MUL:
+				return a * b, true
+			case token.ADD:
+				if a >= 0 && b >= 0 {
+					return sg(int64(a + b)), true
+				}
+				if a <= 0 && b <= 0 {
+					return sg(int64(a + b)), true
+				}
+			}
+		}
+	}
+	return 0, false
+}
+
+// c17LateBy: walks a time or duration expression back to Point.Deadline()/TTL(); reports
+// whether a point's deadline is its base and whether a positive duration was added on the way.
+func (a *c17Anchors) lateBy(w *World, v ssa.Value, depth int) (based, late bool, what string) {
+	if depth > 8 || v == nil {
+		return false, false, ""
+	}
+	switch x := v.(type) {
+	case *ssa.Call:
+		f := staticCallee(x.Common())
+		if f != nil && (f == a.deadline || f == a.ttl) {
+			return true, false, ""
+		}
+		args := x.Common().Args
+		switch calleeKey(x.Common()) {
+		case "(time.Time).Add":
+			if len(args) == 2 {
+				b, l, wh := a.lateBy(w, args[0], depth+1)
+				if b {
+					if s, ok := c17DurSign(w, args[1], 0); ok && s > 0 {
+						return true, true, "Deadline().Add(positive duration)"
+					}
+				}
+				return b, l, wh
+			}
+		case "time.Until":
+			if len(args) == 1 {
+				return a.lateBy(w, args[0], depth+1)
+			}
+		case "builtin.max", "builtin.min":
+			for _, arg := range args {
+				if b, l, wh := a.lateBy(w, arg, depth+1); b {
+					return b, l, wh
+				}
+			}
+		}
+	case *ssa.BinOp:
+		if x.Op == token.ADD || x.Op == token.SUB {
+			for i, side := range []ssa.Value{x.X, x.Y} {
+				other := x.Y
+				if i == 1 {
+					other = x.X
+				}
+				b, l, wh := a.lateBy(w, side, depth+1)
+				if !b {
+					continue
+				}
+				if s, ok := c17DurSign(w, other, 0); ok && (x.Op == token.ADD && s > 0 || x.Op == token.SUB && i == 0 && s < 0) {
+					return true, true, "TTL() plus a positive duration"
+				}
+				return b, l, wh
+			}
+		}
+	case *ssa.Convert:
+		return a.lateBy(w, x.X, depth+1)
+	case *ssa.Phi:
+		for _, e := range x.Edges {
+			if b, l, wh := a.lateBy(w, e, depth+1); b {
+				return b, l, wh
+			}
+		}
+	}
+	return false, false, ""
+}
+
+func c17CheckRenewalWaits(c *Ctx, a *c17Anchors, fn *ssa.Function, loop map[*ssa.BasicBlock]bool) {
+	w := c.W
+	// channels received from inside the loop
+	waited := map[ssa.Value]bool{}
+	for lb := range loop {
+		for _, in := range lb.Instrs {
+			switch x := in.(type) {
+			case *ssa.Select:
+				for _, st := range x.States {
+					waited[st.Chan] = true
+				}
+			case *ssa.UnOp:
+				if x.Op == token.ARROW {
+					waited[x.X] = true
+				}
+			}
+		}
+	}
+	nBased := 0
+	defer func() {
+		if nBased == 0 {
+			c.note("%s renews a rendezvous point in a loop but no wait in that loop is bounded by the point's deadline: the loop re-resolves only when something else ends the iteration (advisory, outside the decided clauses)", fnName(fn))
+		}
+	}()
+	for lb := range loop {
+		for _, in := range lb.Instrs {
+			call, ok := in.(*ssa.Call)
+			if !ok {
+				continue
+			}
+			key := calleeKey(call.Common())
+			args := call.Common().Args
+			var expr ssa.Value
+			isWait := false
+			switch key {
+			case "context.WithDeadline", "context.WithTimeout":
+				if len(args) == 2 {
+					expr = args[1]
+					// is the derived context's Done() received from in this loop?
+					for _, ex := range extractsOf(call, 0) {
+						if ex.Referrers() == nil {
+							continue
+						}
+						for _, r := range *ex.Referrers() {
+							if dc, ok := r.(*ssa.Call); ok && dc.Common().IsInvoke() && dc.Common().Method.Name() == "Done" && waited[dc] {
+								isWait = true
+							}
+						}
+					}
+				}
+			case "time.Sleep":
+				if len(args) == 1 {
+					expr, isWait = args[0], true
+				}
+			case "time.After":
+				if len(args) == 1 {
+					expr, isWait = args[0], waited[call]
+				}
+			}
+			if expr == nil || !isWait {
+				continue
+			}
+			based, late, what := a.lateBy(w, expr, 0)
+			if !based {
+				continue
+			}
+			nBased++
+			construct := fnName(fn) + "+renewal-wait"
+			if late {
+				c.fail("D7", construct, posOf(call), "the loop renews its point only after a wait (%s) that ends later than the point's deadline (%s): for that long after every period boundary the peer stays on the ended period's point; the grace period may extend what is accepted, never delay the own rotation", key, what)
+			} else {
+				c.ok("D7", construct, posOf(call), "the wait that paces the renewal loop ends at the point's deadline")
+			}
+		}
+	}
+}
+
 func c17RunD7(c *Ctx, a *c17Anchors) {
 	w := c.W
 	if a.newPoint == nil {
@@ -3318,6 +3669,7 @@ func c17RunD7(c *Ctx, a *c17Anchors) {
 					}
 				}
 				c.analysed(fn)
+				c17CheckRenewalWaits(c, a, fn, loop)
 				// consumers in the same loop
 				for lb := range loop {
 					for _, x := range lb.Instrs {
